@@ -384,7 +384,13 @@ impl Handler<VariablesRequest> for VariablesRequestHandler {
                     Variable::new("C - Carry", fmt(flags & 1)),
                 ]
             }
-            _ => panic!(),
+            reference => {
+                return Err(anyhow::anyhow!(format!(
+                    "Unknown variables reference: {}",
+                    reference
+                ))
+                .into())
+            }
         };
 
         let response = VariablesResponse { variables };
